@@ -285,6 +285,52 @@ for s1, t1, k1, s2, t2, k2 in req.get("keys", []):
     except Exception as e:
         out["keys"].append(err(e))
 
+# keyword values JSON cannot encode (arrays, numpy scalars, CRS objects): every entry point either raises or gives a key
+def mk_value(v):
+    k = v["k"]
+    if k in ("np", "xr", "mask"):
+        n = int(np.prod(v["shape"]))
+        a = (np.arange(n, dtype=np.float64) % 97).reshape(v["shape"])
+        if k == "mask":
+            a = a > 40
+        for idx, val in v.get("poke", []):
+            a[tuple(idx)] = (not a[tuple(idx)]) if k == "mask" else val
+        return xr.DataArray(a) if k == "xr" else a
+    if k == "f32":
+        return np.float32(v["v"])
+    if k == "i64":
+        return np.int64(v["v"])
+    if k == "crs":
+        return CRS(v["v"])
+    if k == "list_np":
+        return [mk_value(x) for x in v["items"]]
+    raise ValueError(k)
+
+
+def key_or_err(f):
+    try:
+        return {"key": f()}
+    except Exception as e:
+        return {"error": type(e).__name__}
+
+
+for s_, t_, name, va, vb in req.get("nonjson", []):
+    try:
+        a, b = mk_geo(s_), mk_geo(t_)
+        res = {}
+        for lab, v in (("a", va), ("b", vb)):
+            kw = {name: mk_value(v), "neighbours": 1}
+            res[lab] = {
+                "base": key_or_err(lambda: BaseResampler(a, b).get_hash(**kw)),
+                "cache_filename": key_or_err(lambda: BaseResampler(a, b)._create_cache_filename(cache_dir="c", prefix="p", **kw)),
+                "future": key_or_err(lambda: _Future(a, b)._get_hash(**dict(kw))),
+                "func": key_or_err(lambda: hash_resampler_geometries(a, b, **kw)),
+                "hash_dict": key_or_err(lambda: hash_dict(dict(kw)).hexdigest()),
+            }
+        out.setdefault("nonjson", []).append(res)
+    except Exception as e:
+        out.setdefault("nonjson", []).append(err(e))
+
 # lru_cache keyed by (source, target) geometries: same entry iff hash-equal and ==
 for i, j in req.get("lru", []):
     try:
